@@ -64,6 +64,52 @@ CHECKS = {
         ref="10/C06",
         note="must-assigned data-flow analysis is a verdict only after the loop stage (imprecise after branch stage by design)",
     ),
+    "C09": dict(
+        cat="exploration",
+        technique="post-condition of ByteFlow.from_bytecode against dis/opcode ground truth + instruction-trace conformance of executed functions (sys.monitoring / settrace), two interpreter versions",
+        text="Every eligible stdlib function of 3.12 and 3.11 is converted by the real front end and "
+             "the result checked against the running interpreter's own instruction metadata; "
+             "generated functions are executed under instruction-level tracing and every observed "
+             "control transfer must be an edge of the built graph.",
+        ref="10/C09",
+        note="ground truth = dis + opcode.hasjrel/hasjabs + short name lists (A.10), cross-checked by the trace monitor",
+    ),
+    "C13": dict(
+        cat="exploration",
+        technique="contracts on the query functions against brute-force references (M-query), exhaustive small digraphs + in-pipeline calls",
+        text="Every call of the queries - direct on all digraphs of a small scope and all calls made "
+             "by restructuring on the C01 graph classes - is compared with a brute-force reference "
+             "of the set/path definition.",
+        ref="10/C13",
+        note="small scope enumerated completely (sub-counts in evidence); references are the trusted base",
+    ),
+    "C14": dict(
+        cat="exploration",
+        technique="icontract snapshot/ensure contracts on the edit primitives (M-edit), random edit histories + in-pipeline calls, product walker after path-preserving edits",
+        text="Each edit call is checked against its pre-state snapshot by a recording contract; "
+             "random histories exercise region / branching / back-edge predecessors and all |P|,|S| "
+             "shapes; the walker of C01 re-validates paths after every path-preserving edit.",
+        ref="10/C14",
+        note="collapse vs. keep of repeated occurrences left open as in the statement",
+    ),
+    "C16": dict(
+        cat="exploration",
+        technique="recorded iteration sequences (M-iter generator wrapper + quiescent-point calls) vs graph-dict walk",
+        text="The real iterators are run before and after every stage on every level and their "
+             "yielded sequences compared with an independent walk (exactly-once, head first, "
+             "predecessor-before-successor).",
+        ref="10/C16",
+        note="inputs as C02 (all closed CFGs n<=5 included)",
+    ),
+    "C17": dict(
+        cat="exploration",
+        technique="census of the emitted DOT source (own tokenizer) vs hierarchy, cross-checked by a graphviz call log (M-gv)",
+        text="The real renderers run before and after every stage; the DOT text is parsed and "
+             "nodes, cluster nesting, solid/dashed edge multisets and label contents compared with "
+             "the hierarchy.",
+        ref="10/C17",
+        note="no viewer/PDF; DOT reader validated against the recorded graphviz calls on every case",
+    ),
 }
 
 NOT_APPLICABLE = {}
